@@ -15,6 +15,12 @@ def key_of(T, v):
         if r is None:
             r = vt.show(vt.strip(v['recv']))
         return f"{r}.{v['f']}()"
+    if kk == 'call' and v.get('f') == 'load' and v.get('recv') is not None:
+        # AtomicBool::load(ordering): a boolean read of the flag
+        r = T.canon_s(v['recv'])
+        if r is None:
+            r = vt.show(vt.strip(v['recv']))
+        return f"{r}.load()"
     if kk == 'iflet' and any(x.startswith('Some') for x in v.get('variants', [])):
         r = T.canon_s(v['scrut'])
         if r is None:
